@@ -263,7 +263,7 @@ def cross_process_copies(specs):
     with open(sp, 'w') as f:
         json.dump(specs, f)
     for code, seed_ in ((CROSS_A, 11), (CROSS_B, 22)):
-        env = dict(os.environ, PYTHONHASHSEED=str(seed_), PYTHONPATH='/repo:' + here)
+        env = dict(os.environ, PYTHONHASHSEED=str(seed_), PYTHONPATH=os.environ.get('LV_REPO', '/repo') + ':' + here)
         out = subprocess.run([PY, '-c', code % here, sp, pk], env=env, stdout=subprocess.PIPE, stderr=subprocess.PIPE, text=True, timeout=600)
         if out.returncode != 0:
             raise RuntimeError(out.stderr[-2000:])
@@ -275,7 +275,7 @@ def fresh_keys(specs, hashseed):
     p = os.path.join(d, f'specs_{hashseed}.json')
     with open(p, 'w') as f:
         json.dump(specs, f)
-    env = dict(os.environ, PYTHONHASHSEED=str(hashseed), PYTHONPATH='/repo:' + os.path.dirname(os.path.abspath(__file__)))
+    env = dict(os.environ, PYTHONHASHSEED=str(hashseed), PYTHONPATH=os.environ.get('LV_REPO', '/repo') + ':' + os.path.dirname(os.path.abspath(__file__)))
     out = subprocess.run([PY, '-c', FRESH % os.path.dirname(os.path.abspath(__file__)), p], env=env,
                          stdout=subprocess.PIPE, stderr=subprocess.PIPE, text=True, timeout=600)
     if out.returncode != 0:
@@ -286,7 +286,7 @@ def fresh_keys(specs, hashseed):
 VOLUME = {'quick': 700, 'thorough': 12000}
 
 
-def stage_store_roundtrip(report, tier, rng, dist):
+def stage_store_roundtrip(report, tier, rng, dist, prop='C09'):
     """C09 through the real save / cached_tasks path: tasks of several types (same name in two modules, prefix-related
     names, a second cache format) with generated parameter trees are run and cached in one storage; cached_tasks per
     type must return exactly the cached tasks of that type, each once, structurally identical, same key, with the
@@ -294,7 +294,7 @@ def stage_store_roundtrip(report, tier, rng, dist):
     import shutil
     import lv_universe2 as U2
     from labtech.lab import Lab
-    n = 120 if tier == 'quick' else 1500
+    n = (120 if tier == 'quick' else 1500) if prop == 'C09' else (80 if tier == 'quick' else 600)
     types = [U.V2, U.V, U.VV, U2.V2, U.VJ, U.V1, U.VPost]
     d = tempfile.mkdtemp(dir=subdir('vals'))
     done = 0
@@ -318,19 +318,28 @@ def stage_store_roundtrip(report, tier, rng, dist):
             lab.run_tasks([t for t, _ in uniq], disable_progress=True, disable_top=True)
             # nested tasks are executed and cached as well
             todo = [t for t, _ in uniq]
+            everything = [t for t, _ in uniq]
             while todo:
                 t = todo.pop()
                 for sub in [x for f in dataclasses.fields(t) for x in find_tasks_in_param(getattr(t, f.name))]:
+                    everything.append(sub)
                     if not any(sub == u for u, _ in uniq):
                         uniq.append((sub, ['nested-in', V.g_value_py(t)[:200]]))
                         todo.append(sub)
+            # Python's == conflates False / 0 / 0.0 (and 1 / 1.0 / True): two tasks of one batch that are == but not
+            # structurally identical are one task for the coordinator (whichever it met first is the one that was run and
+            # stored), so such tasks are left out of the comparison
+            ambiguous = [t for t in everything if any(t == u and V.g_value_py(t) != V.g_value_py(u) for u in everything)]
+            dist['store_roundtrip_ambiguous_skipped'] += len([1 for t, _ in uniq if any(t == a for a in ambiguous)])
+            uniq = [(t, spec) for t, spec in uniq if not any(t == a for a in ambiguous)]
             done += len(uniq)
             for ty in types:
                 want = [(t, spec) for t, spec in uniq if type(t) is ty]
                 try:
                     got = lab.cached_tasks([ty])
+                    got = [g for g in got if not any(g == a for a in ambiguous)]
                 except BaseException as e:   # noqa
-                    report.violation('C09:cached-tasks-raised', f'cached_tasks([{ty.__module__}.{ty.__qualname__}]) raised {e!r}', dict(spec=want[0][1] if want else None))
+                    report.violation(f'{prop}:cached-tasks-raised', f'cached_tasks([{ty.__module__}.{ty.__qualname__}]) raised {e!r}', dict(spec=want[0][1] if want else None))
                     continue
                 want_ids = sorted((V.g_value_py(t), t.cache_key) for t, _ in want)
                 try:
@@ -344,16 +353,18 @@ def stage_store_roundtrip(report, tier, rng, dist):
                             bad_spec = spec
                             break
                     extra = len(got) - len(want)
+                    if os.environ.get('LV_DEBUG'):
+                        print('WANT-GOT', [x for x in want_ids if got_ids is None or x not in got_ids][:2], '\nGOT-WANT', [x for x in (got_ids or []) if x not in want_ids][:2])
                     sig = 'store-reconstruct-differs' if bad_spec is not None else ('listed-twice-or-foreign' if extra > 0 else 'store-reconstruct-differs')
-                    report.violation(f'C09:{sig}', f'cached_tasks([{ty.__qualname__}]) returned {len(got)} tasks for {len(want)} cached ones; a cached task is not returned '
+                    report.violation(f'{prop}:{sig}', f'cached_tasks([{ty.__qualname__}]) returned {len(got)} tasks for {len(want)} cached ones; a cached task is not returned '
                                                    f'identically (structure or cache_key differs)', dict(spec=bad_spec, type=ty.__qualname__, level='store'))
                     continue
                 if any(t.result_meta is None or t.result_meta.start is None for t in got):
-                    report.violation('C09:no-stored-meta', 'a task returned by cached_tasks carries no stored result_meta', dict(type=ty.__qualname__, level='store'))
+                    report.violation(f'{prop}:no-stored-meta', 'a task returned by cached_tasks carries no stored result_meta', dict(type=ty.__qualname__, level='store'))
                 before = U.VRUN_COUNT[0]
                 lab.run_tasks(got, disable_progress=True, disable_top=True)
                 if U.VRUN_COUNT[0] != before:
-                    report.violation('C09:rerun-executed', 'running the tasks returned by cached_tasks executed them instead of loading the stored results', dict(type=ty.__qualname__, level='store'))
+                    report.violation(f'{prop}:rerun-executed', 'running the tasks returned by cached_tasks executed them instead of loading the stored results', dict(type=ty.__qualname__, level='store'))
             dist['store_roundtrip_tasks'] = done
     finally:
         shutil.rmtree(d, ignore_errors=True)
@@ -414,6 +425,9 @@ def run(prop, report, tier, seed, replay=None):
         dist['cross_process_copies'] = len(okspecs)
     if prop == 'C09' and (replay is None or replay['input'].get('level') == 'store'):
         stage_store_roundtrip(report, tier, rng, dist)
+    if prop == 'C07' and (replay is None or replay['input'].get('level') == 'store'):
+        # "... or reconstruction from cache metadata": through the real metadata file, not only the serializer
+        stage_store_roundtrip(report, tier, rng, dist, prop='C07')
     if prop == 'C07' and replay is None:
         okspecs = [s for s in kept if V.construct(s)[0] == 'ok'][:400 if tier == 'quick' else 4000]
         base = [V.construct(s)[1].cache_key for s in okspecs]
